@@ -46,6 +46,16 @@ def _case(draw, tier):
     w = {"connect": 10, "add_child": 7, "peer": 4, "add_service": 10, "validate": 0, "serialize_load": 0, "prune": 0,
          "unset_prop": 0, "rename": 1}
     prog = draw(topo.program(flavour, max_ops=22, removals=False, weights=w, min_ops=8))
+    if draw(st.integers(0, 7)) == 0:
+        # structured prefix: a facility that carries a SECOND service whose port has the name of the facility's own
+        # port, both ports connected to one service (names are unique per service only: anything keyed by port name
+        # on the node sees one port where there are two)
+        prog = [{"op": "add_facility", "name": ["fresh"], "site": "RENC", "id": None, "ifs": None, "props": {}},
+                {"op": "node_service", "node": 0, "name": ["fresh"], "nstype": "VLAN", "id": None, "props": {}, "h": 1},
+                {"op": "ns_add_interface", "svc": 1, "name": ["lit", "fac1-int"], "id": None, "itype": "TrunkPort",
+                 "props": {}, "h": 1},
+                {"op": "add_service", "name": ["fresh"], "nstype": "L2STS", "ifs": [["free", 0, 1], ["free", 0, 1]],
+                 "site": None, "id": None, "props": {}}] + prog[:16]
     return {"flavour": flavour, "prog": prog}
 
 
